@@ -35,7 +35,8 @@ def impl(c):
     if c['form'] == 'selector':
         res = seq.TransferableVoteSelector(dist).evaluate(votes, c['n'])
         return ok([[], [[cnum(x), 1] for x in res], 0])
-    res = dist.evaluate(votes, c['n'], max_seats={cname(k): v for k, v in c['caps']})
+    # no caps at all: the argument is left out (the signature's default is used), as a caller would
+    res = dist.evaluate(votes, c['n'], max_seats={cname(k): v for k, v in c['caps']}) if c['caps'] else dist.evaluate(votes, c['n'])
     return ok([[], [[cnum(k), v] for k, v in res.items()], 0])
 
 
@@ -122,7 +123,8 @@ def nontrivial(c):
 def gen(rng, count, hare=False, boundary=False):
     for c in (c03.gen_boundary if boundary else c03.gen)(rng, count, selector_only=False):
         c = dict(c)
-        c['form'] = 'selector' if all(v == 1 for _, v in c['caps']) else 'distributor'
+        ncand = len({x for b, _ in c['votes'] for i in b for x in ([i] if isinstance(i, int) else i)})
+        c['form'] = 'selector' if len(c['caps']) == ncand and all(v == 1 for _, v in c['caps']) else 'distributor'
         c['cfg'] = dict(c['cfg'], quota=rng.choice([3, 3, 1]), mq=0)
         if hare:
             c['cfg']['quota'] = 3
